@@ -2013,10 +2013,12 @@ func (k *Kernel) handleReplayedHeader(
 				// TODO: this should be a gassert instead probably?
 				panic("TODO: ValidatorSet must be populated on replayed headers")
 			}
+			// Verify against the voting view's own keys:
+			// the equality check above does not cover the public key list on the header.
 			haveProof, err = k.cmspScheme.New(
 				precommitContent,
-				header.ValidatorSet.PubKeys,
-				string(header.ValidatorSet.PubKeyHash),
+				s.Voting.ValidatorSet.PubKeys,
+				string(s.Voting.ValidatorSet.PubKeyHash),
 			)
 			if err != nil {
 				return tmelink.ReplayedHeaderInternalError{
@@ -2036,7 +2038,7 @@ func (k *Kernel) handleReplayedHeader(
 
 		// Now merge the incoming proof with the local copy.
 		mergeRes := haveProof.MergeSparse(gcrypto.SparseSignatureProof{
-			PubKeyHash: string(header.ValidatorSet.PubKeyHash),
+			PubKeyHash: string(s.Voting.ValidatorSet.PubKeyHash),
 			Signatures: sparseSigs,
 		})
 
@@ -2102,8 +2104,9 @@ func (k *Kernel) handleReplayedHeader(
 	var blockPow uint64
 	var bs bitset.BitSet
 	headerProof.SignatureBitSet(&bs)
-	for i, ok := bs.NextSet(0); ok && int(i) < len(header.ValidatorSet.Validators); i, ok = bs.NextSet(i + 1) {
-		blockPow += header.ValidatorSet.Validators[int(i)].Power
+	votingVals := s.Voting.ValidatorSet.Validators
+	for i, ok := bs.NextSet(0); ok && int(i) < len(votingVals); i, ok = bs.NextSet(i + 1) {
+		blockPow += votingVals[int(i)].Power
 	}
 
 	// Arguably we could update the precommit proofs now;
